@@ -630,7 +630,25 @@ def opPyxLoop : P String := do
   | none => pure s!"bad-op:unknown-kernel:{name}"
   | some f => pure (outFs (f arrs sc n))
 
+/-- `pyxi <module.kernel> <narr> {<len> floats…}* <nscal> scalars… <nnat> nats…` → the result arrays of a translated array kernel
+    (nested loops), each as `<len> floats…` -/
+def opPyxImp : P String := do
+  let name ← tok
+  let na ← nat
+  let arrs ← many na (do let n ← nat; let xs ← flts n; pure xs.toArray)
+  let ns ← nat
+  let sc ← flts ns
+  let nn ← nat
+  let nats ← many nn nat
+  done
+  match pyxImpTable.lookup name with
+  | none => pure s!"bad-op:unknown-kernel:{name}"
+  | some f =>
+    let rs := f arrs sc nats
+    pure (" ".intercalate (rs.map fun r => if r.size == 0 then "0" else s!"{r.size} " ++ outFs r.toList))
+
 def table : List (String × P String) := [
+  ("pyxi", opPyxImp),
   ("pyxl", opPyxLoop),
   ("pyx", opPyx),
   ("joint", opJoint),
